@@ -388,7 +388,7 @@ PROPS = {
         "rule": "streams: graph (20 shapes of include graphs x 9 command forms x schedule seeds x GOMAXPROCS), bytes (random bytes, random ASCII, truncated and token-mutated journals), special (44 "
                 "boundary journals x drawn window flags incl. inverted windows, huge/negative --last, negative --digits), flags (41 argv-level variants: unknown flags, bad regex/map/dates, "
                 "missing/dir/empty paths, absent -v, universe files), slow (the recorded resource findings), paths (path.Clean and path.Join(filepath.Dir) vs the model), late (64 / 800 journals whose valid prefix "
-                "reports more than 4 KiB / 64 KiB / 1 MiB before one failing directive - each checker rule, a missing price, a late syntax / date / account / accrual / include error - x 8 command forms, each run with and without the failing directive). A class = "
+                "reports more than 4 KiB / 64 KiB / 1 MiB before one failing directive - each checker rule, a missing price, a late syntax / date / account / accrual / include error - x 8 command forms, each run with and without the failing directive), flagmix (700 / 12000 runs of balance / portfolio weights / returns with the full balance flag vector of C01-C03 plus 2-4 forced features - -m level 0, -m level 1-3, several -m rules, --remap, --account, --commodity, -s, -v, window, --last, interval, --diff, --close=false, --csv, -a, -k, --digits: every pair occurs - on boundary and generated journals; patterns from the names in the journal; a fifth with a regex or level outside the model, monitored only). A class = "
                 "(stream, kind, command, observed outcome class); distinct_nontrivial counts classes hit.",
         "assumptions": ["the file system has finitely many readable cleaned paths (PATH_MAX)",
                         "the processors' models (Check, Balance, Beancount, Table, Infer, Syntax printer) behave as the code: established by their own properties' correspondence checks; here only the outcome class is compared",
